@@ -17,7 +17,7 @@ import (
 )
 
 // RepoDir is the tree whose validator is under test (the harness is linked against it).
-var RepoDir = "/repo"
+var RepoDir = "/var/tmp/repo-snap13"
 
 // NonOverlapRules: every default rule except OverlappingFieldsCanBeMerged, in default order.
 var NonOverlapRules = "FieldsOnCorrectType,FragmentsOnCompositeTypes,KnownArgumentNames,KnownDirectives,KnownFragmentNames,KnownRootType,KnownTypeNames,LoneAnonymousOperation,MaxIntrospectionDepth,NoFragmentCycles,NoUndefinedVariables,NoUnusedFragments,NoUnusedVariables,PossibleFragmentSpreads,ProvidedRequiredArguments,ScalarLeafs,SingleFieldSubscriptions,UniqueArgumentNames,UniqueDirectivesPerLocation,UniqueFragmentNames,UniqueInputFieldNames,UniqueOperationNames,UniqueVariableNames,ValuesOfCorrectType,VariablesAreInputTypes,VariablesInAllowedPosition"
